@@ -33,7 +33,7 @@ func storesOn(fn *ssa.Function, p *an.Path) []fieldStore {
 				continue
 			}
 			if len(fn.Params) > 0 && fa.X == ssa.Value(fn.Params[0]) {
-				out = append(out, fieldStore{Field: an.FieldOf(fa).Name(), Val: st.Val, In: st})
+				out = append(out, fieldStore{Field: an.FieldName(an.FieldOf(fa)), Val: st.Val, In: st})
 			}
 		}
 	}
